@@ -8,7 +8,7 @@ EXPLANATION = ("Active-error protocol of the skeleton, on all paths of every ins
                "active_error guard together with setting error_since_advance (S9); the guard is cleared only by a successful "
                "consumption (S10); diagnostic spans come from Parser::span, which reads spans[pos] or max_offset (S11); a report "
                "precedes error-mode consumption (S8); at the end of the token stream the current token becomes the entry point's own end token (S7). Gives at most one syntax diagnostic per consumed token with spans inside the "
-               "source. 'Earliest possible position' needs exact decision sets: TVAL validates, for the 300+ rule functions of the analysed grammars that are not left-recursive, predicate-free and not used in an ordered choice, that every decision of the emitted code uses exactly the first/follow/predict sets recomputed from the grammar text (sampled grammars); for the remaining rule functions it is not decided. MONO: no table of the semantic pass is updated under a size test of another table (the outside follow of a left-recursive rule decides where its operator loop stops).")
+               "source. 'Earliest possible position' needs exact decision sets: TVAL validates, for the 300+ rule functions of the analysed grammars that are not left-recursive, predicate-free and not used in an ordered choice, that every decision of the emitted code uses exactly the first/follow/predict sets recomputed from the grammar text (sampled grammars); for the remaining rule functions it is not decided.PREORD: the follow pass extends follow_sets[child] before it descends into the child. MONO: no table of the semantic pass is updated under a size test of another table (the outside follow of a left-recursive rule decides where its operator loop stops).")
 
 
 def run(ctx, rep):
@@ -21,5 +21,6 @@ def run(ctx, rep):
     ])
     tval.tval_rule(ctx, rep)
     lrules.monotone_rule(ctx, rep)
+    lrules.preorder_rule(ctx, rep)
     common.corpus_note(ctx, rep)
     rep.assume("user-written callbacks do not push diagnostics behind the parser's back (assertion_* return a diagnostic; C06 excludes assertions)")
